@@ -400,6 +400,13 @@ func (cc *Consensus) LogPin(ctx context.Context, pin *api.Pin) error {
 	ctx, span := trace.StartSpan(ctx, "consensus/LogPin")
 	defer span.End()
 
+	// A pin that cannot be serialized for the state would be committed
+	// and acknowledged but fail to apply on every peer, leaving all
+	// their states marked as inconsistent. Refuse it before committing.
+	if _, err := pin.ProtoMarshal(); err != nil {
+		return err
+	}
+
 	op := cc.op(ctx, pin, LogOpPin)
 	err := cc.commit(ctx, op, "LogPin", pin)
 	if err != nil {
